@@ -23,7 +23,7 @@ ASSUMPTIONS = [
     "outcomes the statement does not fix (re-binding a prefix to a URI that already has one) are observed: rejected => unchanged, accepted => invariants hold",
     "a sheet parsed from a text is compared with what the text's @namespace rules mean (last declaration of a URI wins); only for texts whose prefixes are all distinct (then: the last declaration of a URI wins); a prefix declared twice inside one text is input handling the statement does not fix (the parser ignores the repetition; the statement does not say)",
 ]
-PROBES = ["rebind_prefix", "delete_used_namespace_rejected", "undeclared_prefix_rejected", "rule_moved_between_sheets", "default_namespace_changed", "restart", "duplicate_uri_rules", "selector_in_media", "empty_bodied_rule", "rule_detached_and_kept", "detached_rule_attached_again", "two_superseded_declarations_in_one_text"]
+PROBES = ["rebind_prefix", "delete_used_namespace_rejected", "undeclared_prefix_rejected", "rule_moved_between_sheets", "default_namespace_changed", "restart", "duplicate_uri_rules", "selector_in_media", "empty_bodied_rule", "rule_detached_and_kept", "detached_rule_attached_again", "two_superseded_declarations_in_one_text", "other_uri_rejected"]
 
 ANY = -1
 PREFIXES = ["p", "q", "r", ""]
@@ -303,6 +303,20 @@ class World:
             if not rules:
                 return "none"
             kk, v = lib.call(setattr, rules[op["i"] % len(rules)], "prefix", op["prefix"])
+        elif k == "ns_rule_text":
+            # the text of an @namespace rule in the sheet is replaced: another URI is refused (both error modes:
+            # nothing changes), the same URI under another prefix re-binds
+            rules = [r for r in s.cssRules if r.typeString == "NAMESPACE_RULE"]
+            if not rules:
+                return "none"
+            rule = rules[op["i"] % len(rules)]
+            uri = op["uri"] if op["uri"] is not None else rule.namespaceURI
+            text = f'@namespace {op["prefix"]} "{uri}";' if op["prefix"] else f'@namespace "{uri}";'
+            kk, v = lib.call(setattr, rule, "cssText", text)
+            if uri != rule.namespaceURI or (kk == "ok" and op["uri"] is not None and op["uri"] != before_map.get(rule.prefix) and uri not in before_map.values()):
+                expect_reject = "other_uri"
+            if op["uri"] is not None and op["uri"] != [u for p_, u in before[1]][op["i"] % len(rules)]:
+                expect_reject = "other_uri"
         elif k == "del_ns_rule":
             rules = [r for r in s.cssRules if r.typeString == "NAMESPACE_RULE"]
             if not rules:
@@ -419,9 +433,9 @@ class World:
             self.stats["oracle"] += 1
             if after != before:
                 raise Viol("V3_V7_must_be_rejected", f"{k}:{expect_reject}", f"{k} {op} ({expect_reject}) changed the sheet: {before} -> {after}")
-            if kk == "ok" and self.cfg["raise"] and expect_reject == "delete_used_namespace":
+            if kk == "ok" and self.cfg["raise"] and expect_reject in ("delete_used_namespace", "other_uri"):
                 raise Viol("V3_V7_must_be_rejected", f"{k}:{expect_reject}:no-exception", f"{k} {op} did not raise")
-            self.stats["probe:" + ("delete_used_namespace_rejected" if expect_reject.startswith("delete") else "undeclared_prefix_rejected")] += 1
+            self.stats["probe:" + ("delete_used_namespace_rejected" if expect_reject.startswith("delete") else "other_uri_rejected" if expect_reject == "other_uri" else "undeclared_prefix_rejected")] += 1
         if before_map.get("") != dict(s.namespaces.items()).get(""):
             self.stats["probe:default_namespace_changed"] += 1
         self.stats[f"op:{k}:{out.split(':')[0]}"] += 1
@@ -513,7 +527,7 @@ def gen_op(r, w, i):
     cfg = w.cfg
     if i >= cfg["n_ops"]:
         return None
-    k = r.choice(["ns_set", "ns_set", "ns_del", "ns_del", "add_ns_rule", "del_ns_rule", "rule_prefix", "add_style", "add_style", "add_style", "set_selector", "set_selector", "move", "sheet_text", "restart", "detach", "reattach"])
+    k = r.choice(["ns_set", "ns_set", "ns_del", "ns_del", "add_ns_rule", "del_ns_rule", "rule_prefix", "add_style", "add_style", "add_style", "set_selector", "set_selector", "move", "sheet_text", "restart", "detach", "reattach", "ns_rule_text"])
     s = r.randrange(0, 2)
     if k == "ns_set":
         return {"op": k, "s": s, "prefix": r.choice(PREFIXES), "uri": r.choice(URIS)}
@@ -525,6 +539,8 @@ def gen_op(r, w, i):
         return {"op": k, "s": s, "i": r.randrange(0, 4)}
     if k == "rule_prefix":
         return {"op": k, "s": s, "i": r.randrange(0, 4), "prefix": r.choice(PREFIXES + ["k"])}
+    if k == "ns_rule_text":
+        return {"op": k, "s": s, "i": r.randrange(0, 4), "prefix": r.choice(PREFIXES + ["k"]), "uri": r.choice([None, None, "u9", "u8"])}
     if k in ("detach", "reattach"):
         return {"op": k, "s": s, "i": r.randrange(0, 6)}
     if k == "add_style":
